@@ -362,6 +362,9 @@ func (in *Interp) resetForConfig() {
 	in.baseDoms = map[*Term]ByteSet{}
 	in.side = nil
 	in.fmtCache = map[string][]*Term{}
+	in.knowGen++
+	in.evalGen = nil
+	in.evalVal = nil
 	in.memo = map[string]*memoEntry{}
 	in.noMerge = map[*ssa.Function]string{}
 	in.stats = Stats{}
@@ -573,7 +576,20 @@ func natEpoch(in *Interp, fn *ssa.Function, args []Value) Value {
 	return nil
 }
 
+// vv.Reached(): the inputs were accepted; counts as reaching the property for the vacuity guard.
 func natReached(in *Interp, fn *ssa.Function, args []Value) Value {
+	in.requireTop("vv.Reached")
+	rs := in.run
+	if rs == nil || rs.res.Reach != nil {
+		return nil
+	}
+	v, model, _ := in.solver.Check(in.fullPC(), in.side, rs.inputs)
+	if v == VUnsat {
+		panic(pathEnd{kind: endInfeasible})
+	}
+	if v == VSat {
+		rs.res.Reach = &Witness{Config: rs.cfg.ID, Pkg: rs.cfg.Pkg, Func: rs.cfg.Func, Args: rs.concreteArgs(model), Kind: "reach", Msg: "inputs accepted", Active: rs.cfg.Active}
+	}
 	return nil
 }
 
